@@ -235,6 +235,8 @@ func (e *Engine) indexVal(st *State, x Value, i *smt.Term, xt, it types.Type) (V
 	c := e.C
 	i = e.toIdx64(i, it)
 	switch xv := x.(type) {
+	case StrV:
+		return e.strIndex(st, xv, i)
 	case BArrV:
 		if at, ok := xt.Underlying().(*types.Array); ok {
 			if sd := flatStride(at); sd != 1 {
